@@ -192,6 +192,28 @@ func normalizeMessage(msg string) string {
 	return strings.Join(fields, " ")
 }
 
+// withoutCrud returns a name or an email address the way git writes it into
+// an identity (strbuf_addstr_without_crud in ident.c): without the bytes that
+// delimit the fields of the line anywhere ('<', '>', newline), and without
+// blanks and punctuation at either end.
+func withoutCrud(s string) string {
+	crud := func(c byte) bool {
+		return c <= ' ' || strings.IndexByte(",:;<>\"\\'", c) >= 0
+	}
+	for len(s) > 0 && crud(s[0]) {
+		s = s[1:]
+	}
+	for len(s) > 0 && crud(s[len(s)-1]) {
+		s = s[:len(s)-1]
+	}
+	return strings.Map(func(r rune) rune {
+		if r == '\n' || r == '<' || r == '>' {
+			return -1
+		}
+		return r
+	}, s)
+}
+
 // Encode writes a single reflog entry to the writer.
 func Encode(w io.Writer, e *Entry) error {
 	if w == nil {
@@ -210,11 +232,12 @@ func Encode(w io.Writer, e *Entry) error {
 	minutes := (offset % 3600) / 60
 
 	msg := normalizeMessage(e.Message)
+	name, email := withoutCrud(e.Committer.Name), withoutCrud(e.Committer.Email)
 
 	if msg != "" {
 		_, err := fmt.Fprintf(w, "%s %s %s <%s> %d %c%02d%02d\t%s\n",
 			e.OldHash, e.NewHash,
-			e.Committer.Name, e.Committer.Email,
+			name, email,
 			e.Committer.When.Unix(), sign, hours, minutes,
 			msg,
 		)
@@ -223,7 +246,7 @@ func Encode(w io.Writer, e *Entry) error {
 
 	_, err := fmt.Fprintf(w, "%s %s %s <%s> %d %c%02d%02d\n",
 		e.OldHash, e.NewHash,
-		e.Committer.Name, e.Committer.Email,
+		name, email,
 		e.Committer.When.Unix(), sign, hours, minutes,
 	)
 	return err
